@@ -95,12 +95,28 @@ def build_state(app, rng):
     """several trees, some with a child provider, so that queries have many candidates"""
     n = rng.randint(3, 6)
     rq = lambda m, p, b=None: app.request(m, p, body=b, version='1.39', headers=SVC)    # noqa: E731
+    # shape: nested trees (has_trees), a flat cloud with a sharing provider (no provider has a parent), or both
+    shape = rng.choice(['nested', 'flat-sharing', 'nested-sharing'])
+    p_child = 0.0 if shape == 'flat-sharing' else 0.6
+    if shape != 'nested':
+        agg = U(1, ops.K_AGG)
+        ss = U(90)
+        assert rq('POST', '/resource_providers', {'name': 'shared-storage', 'uuid': ss}).status == 200
+        assert rq('PUT', '/resource_providers/%s/inventories' % ss, {
+            'resource_provider_generation': 0, 'inventories': {'DISK_GB': {'total': 1000}}}).status == 200
+        assert rq('PUT', '/resource_providers/%s/traits' % ss, {
+            'resource_provider_generation': 1, 'traits': ['MISC_SHARES_VIA_AGGREGATE']}).status == 200
+        assert rq('PUT', '/resource_providers/%s/aggregates' % ss, {
+            'resource_provider_generation': 2, 'aggregates': [agg]}).status == 200
     for i in range(1, n + 1):
         assert rq('POST', '/resource_providers', {'name': 'cn%d' % i, 'uuid': U(i)}).status == 200
         inv = {'VCPU': {'total': rng.choice([4, 8, 16])}, 'MEMORY_MB': {'total': 4096}}
         assert rq('PUT', '/resource_providers/%s/inventories' % U(i), {'resource_provider_generation': 0,
                                                                       'inventories': inv}).status == 200
-        if rng.random() < 0.6:
+        if shape != 'nested' and (i == 1 or rng.random() < 0.7):
+            assert rq('PUT', '/resource_providers/%s/aggregates' % U(i), {
+                'resource_provider_generation': 1, 'aggregates': [agg]}).status == 200
+        if rng.random() < p_child:
             c = 100 + i
             assert rq('POST', '/resource_providers', {'name': 'child%d' % i, 'uuid': U(c),
                                                       'parent_provider_uuid': U(i)}).status == 200
@@ -198,11 +214,20 @@ def run(pid, tier, out):
     viols = []
     samples = []
     ocases = object_cases(rng, 300 if tier == 'quick' else 3000)
-    results = [run_real_limit(*c) for c in ocases]
+    corr_error = None
+    results = []
+    for c in ocases:
+        try:
+            results.append(run_real_limit(*c))
+        except Exception as exc:      # the real function no longer runs on the stand-in objects: the tie is broken
+            corr_error = 'limit_results raised %s: %s on the object-level stand-ins' % (type(exc).__name__, exc)
+            results = []
+            break
     model_ok = all(common.vo_fresh(d) for d in DEPS[:1])
     disagreements = []
-    corr_error = None
-    if model_ok:
+    if corr_error is not None:
+        pass
+    elif model_ok:
         try:
             disagreements = coq_object_cases(ocases, results, os.path.join(common.WORK, 'limit'))
         except Exception as exc:
